@@ -218,7 +218,10 @@ FLAG_SETS_AFTER = [[], ["-version"], ["-help"], ["--help"], ["-readonly"], ["-sa
 CLI_ARGS = [[], ["SELECT 1"], ["SELECT * FROM t"], ["DELETE FROM t"], ["SELECT 1", "DELETE FROM t"], ["SELECT 1;", "SELECT 2"],
             [".shell touch pwned"], [".tables"], ["SELECT @a(\"), 1; DELETE FROM t; --\")"], ["SELECT 1; DELETE FROM t"],
             ["select 1", ".shell touch pwned"], ["DROP TABLE u", "SELECT 1"], ["SELECT writefile('aux.db', 'x')"],
-            ["select 1", "SELECT writefile('new.txt', b) FROM t"], ["VACUUM INTO 'copy.db'"]]
+            ["select 1", "SELECT writefile('new.txt', b) FROM t"], ["VACUUM INTO 'copy.db'"],
+            # round seven: spellings of a shell function the guard pattern does not see (quoted name, comment before the parenthesis)
+            ["SELECT \"writefile\"('new1.txt', 'x')"], ["SELECT [writefile]('new2.txt', 'x')"], ["SELECT `writefile`('new3.txt', 'x')"],
+            ["SELECT writefile/**/('new4.txt', 'x')"], ["SELECT writefile /* c */ ('new5.txt', 'x')"], ["SELECT writefile--\n('new6.txt', 'x')"]]
 
 
 def run(tier, seed, replay=None):
